@@ -10,6 +10,9 @@ import Driver.SqlJoin
 import Driver.SqlSub
 import Driver.Cal
 import Driver.Json
+import Driver.SqlCmp
+import Driver.SqlAgg
+import Driver.SqlFn
 
 def main (args : List String) : IO UInt32 := do
   let stdin ← IO.getStdin
@@ -22,6 +25,9 @@ def main (args : List String) : IO UInt32 := do
   | ["sqldb"] => Driver.loop stdin stdout ({} : TurVerif.SqlDb.DbState) Driver.SqlDb.step; return 0
   | ["sqljoin"] => Driver.loop stdin stdout ({} : Driver.SqlJoin.St) Driver.SqlJoin.step; return 0
   | ["sqlsub"] => Driver.loop stdin stdout ([] : TurVerif.Sql.Db) Driver.SqlSub.step; return 0
+  | ["sqlagg"] => Driver.loop stdin stdout () Driver.SqlAgg.step; return 0
+  | ["sqlcmp"] => Driver.loop stdin stdout () Driver.SqlCmp.step; return 0
+  | ["sqlfn"] => Driver.loop stdin stdout () Driver.SqlFn.step; return 0
   | ["sql"] => Driver.loop stdin stdout ([] : TurVerif.Sql.Db) Driver.Sql.step; return 0
   | ["key"] => Driver.loop stdin stdout () Driver.KeyEnc.step; return 0
   | ["simd"] => Driver.loop stdin stdout Driver.Simd.St.init Driver.Simd.step; return 0
